@@ -253,6 +253,8 @@ add(Gram("f1", Level([Named("switch", "v", ["verbose"]), _f1_stdin, Pos("opt")])
 add(Gram("f2", Level([Named("switch", "v", ["verbose"]), Cmds([Cmd(["cat"], Level([_f1_stdin, Pos("opt")]))])]), short_flags="vi",
          note="the same choice inside a subcommand (names-only Level)"))
 
+add(Gram("un", None, short_flags="n", names=("n", ["gr\u00f6\u00dfe", "new"], ["s\u00fcd"]), note="non-ASCII long name and command name"))
+
 add(Gram("k5", None, short_flags="rs", short_args="w", names=("rsw", ["rect", "sw", "width"], []), note="switch, then optional adjacent group (flag + argument), then optional positional"))
 
 _hd_secret = Named("switch", "s", ["secret"])
